@@ -83,14 +83,14 @@ class Analysis:
         self.cache[key] = (b, g)
         return b, g
 
-    def ctx_exit_graph(self, cls, which, count, other=0, threading=True, method="__exit__"):
+    def ctx_exit_graph(self, cls, which, count, other=0, threading=True, method="__exit__", exc=False):
         """Graph of leaving (or entering) a buffering context of ``cls``:
         which = 'obj' (obj.buffered) or 'backend' (cls.buffer_backend()),
         count = value of that context's counter on entry to the call,
         other = value of the other counter."""
         model = self.m(threading)
         cls = model.find_class(cls if isinstance(cls, str) else cls.name)
-        key = ("ctx", cls.qualname, which, count, other, threading, method)
+        key = ("ctx", cls.qualname, which, count, other, threading, method, exc)
         if key in self.cache:
             return self.cache[key]
         counts = {("T", "buffered"): count if which == "obj" else other, ("C", "_buffer_context"): count if which == "backend" else other}
@@ -111,10 +111,12 @@ class Analysis:
         b2 = Builder(model, ctx)
         b2.objfields = b.objfields
         args = [Val("const", None)] * 3 if method == "__exit__" else []
+        if exc and method == "__exit__":
+            args = [Val("unknown", "exc")] * 3  # the block is left by an exception
         g = b2.run(v.func, cm, args, {})
         g.live = g.live_nodes()
         g.ctx = ctx
-        g.label = f"{cls.name}.{'buffered' if which == 'obj' else 'buffer_backend()'}.{method}[count={count},other={other}]"
+        g.label = f"{cls.name}.{'buffered' if which == 'obj' else 'buffer_backend()'}.{method}[count={count},other={other}{',exc' if exc else ''}]"
         self.stats["graphs"] += 1
         self.stats["nodes"] += len(g.live)
         self.cache[key] = (b2, g)
